@@ -475,6 +475,25 @@ class Text(Shape):
         return XStr.atom(ctx.fresh_name(name), excl=self.excl)
 
 
+class AltText(Shape):
+    """One of finitely many literal texts, symbolically (no fork): a string with alternatives."""
+
+    def __init__(self, texts):
+        self.texts = list(texts)
+
+    def sample(self, rng):
+        return rng.choice(self.texts)
+
+    def fresh(self, ctx, name):
+        from .strings import XStr, str_merge
+        k = ctx.fresh_int(name + '_alt')
+        ctx.assume_type(z3.And(k >= 0, k < len(self.texts)))
+        r = self.texts[-1]
+        for i in range(len(self.texts) - 2, -1, -1):
+            r = str_merge(k == i, self.texts[i], r)
+        return r
+
+
 class Ext(Shape):
     """External object (socket ...) with ghost fields."""
 
